@@ -4,3 +4,4 @@
 mod io;
 mod ibc;
 mod ledger;
+mod validators;
